@@ -131,6 +131,8 @@ def rec_src(op):
     if k == 'rvalnot':
         return 'node.require_attribute_value_not({!r}, {})'.format(op[1], lit(op[2]))
     if k == 'rraise':
+        if len(op) > 1 and op[1] == 'bare':
+            return "raise yatiml.RecognitionError()"        # the documented no-argument form
         return "raise yatiml.RecognitionError('custom recogniser refuses')"
     if k == 'rother':
         return "raise ValueError('custom recogniser blew up')"
